@@ -4,7 +4,7 @@ import json
 
 CLAIMED = {
  "C01": dict(engine="E1+E3", technique="exhaustive exploration of the SAT-oracle choice tree (stateless, deviation-bounded) over all small frameworks",
-   text="Every execution of the real single-extension procedures on every framework with <=3 arguments (x5 presentations, every selectable encoder) under EVERY sequence of models a SAT backend may return (complete choice tree of the ChoiceSat oracle), plus the structured family S, sparse 5-argument classes and all isomorphism classes of 4-argument frameworks under a deviation bound, every isomorphism class of the 6-argument digraphs with <=7 (thorough 8) attacks and three dense extremes (complete digraphs on 11/16 arguments) with the embedded solver (thorough: all 4-argument frameworks with D<=1 and the complete tree on every class); each leaf judged against a brute-force reference. Bounded exhaustive: nothing sampled.",
+   text="Every execution of the real single-extension procedures on every framework with <=3 arguments (x5 presentations, every selectable encoder) under EVERY sequence of models a SAT backend may return (complete choice tree of the ChoiceSat oracle), plus the structured family S, sparse 5-argument classes and all isomorphism classes of 4-argument frameworks under a deviation bound, every isomorphism class of the 6-argument digraphs with <=7 (thorough 8) attacks three dense extremes (complete digraphs on 11/16 arguments) and a composition family of 20 592 irregular frameworks of up to 9 arguments glued from small connected pieces, with the embedded solver (thorough: all 4-argument frameworks with D<=1 and the complete tree on every class); each leaf judged against a brute-force reference. Bounded exhaustive: nothing sampled.",
    note="trusted: reference semantics by subset enumeration (self-checked), harness DPLL (self-checked against truth tables), Assignment fabrication through CadicalSolver unit clauses; bound: n<=3 complete, n=4 D<=1, S D<=1/2", ref="4 C01, 2.1, 2.3"),
  "C02": dict(engine="E1+E3", technique="exhaustive exploration of the SAT-oracle choice tree over all small frameworks x arguments",
    text="Credulous statuses of every solver the CLI dispatches to, for every argument of every framework with <=3 arguments (x5 presentations x encoders x certificate flag) on every leaf of the complete oracle choice tree, plus S, sparse 5-argument classes, all classes of U(4) (thorough: U(4)) deviation-bounded, every class of 6-argument digraphs with <=7 (8) attacks and three dense extremes with the embedded solver, judged against exists-over-reference-extensions.",
